@@ -11,7 +11,7 @@ def main():
         hs[h["name"]] = h
     def b(h):
         ok, exe, log = core.build_harness(h["name"], h["source"], h.get("repo_srcs", ()), h.get("flags", ()),
-                                          h.get("extra_sources", ()), h.get("san", True))
+                                          h.get("extra_sources", ()), h.get("san", True), "", h.get("shared_libs", ()))
         return h["name"], ok, log
     with ThreadPoolExecutor(8) as ex:
         for name, ok, log in ex.map(b, hs.values()):
